@@ -1,6 +1,8 @@
 package worlds
 
 import (
+	"runtime"
+	"runtime/pprof"
 	"bufio"
 	"encoding/json"
 	"flag"
@@ -80,6 +82,13 @@ func TestWorker(t *testing.T) {
 		}
 	}
 	fmt.Fprintf(bw, "{\"done\":true,\"runs\":%d,\"wall_s\":%.3f}\n", n, time.Since(start).Seconds())
+	if hp := os.Getenv("SIM_HEAP"); hp != "" {
+		runtime.GC()
+		f, _ := os.Create(hp)
+		pprof.WriteHeapProfile(f)
+		f.Close()
+		fmt.Fprintf(os.Stderr, "goroutines at end: %d\n", runtime.NumGoroutine())
+	}
 }
 
 func parseOpts(s string) map[string]string {
